@@ -1,5 +1,5 @@
 /-
-  Qfx.Model.Values — FIX value types (fix_int.go, fix_boolean.go, fix_float.go (acceptance only),
+  Qfx.Model.Values — FIX value types (fix_int.go, fix_boolean.go, fix_float.go (syntax; values in Model/Float.lean),
   fix_utc_timestamp.go via Go's time.Parse/Format for the four FIX layouts, fix_string.go, fix_bytes.go).
 -/
 import Qfx.Model.Bytes
@@ -18,11 +18,11 @@ def writeInt (v : Int) : Bytes := fmtInt v
 def readStr (b : Bytes) : Res Bytes := .ok b
 def writeStr (b : Bytes) : Bytes := b
 
-/-! ## float: acceptance only (the value is strconv's).
+/-! ## float: the syntax here; the value read / the text written are in Qfx.Model.Float.
   `FIXFloat.Read` = `strconv.ParseFloat` succeeds ∧ every byte ∈ [0-9.-].
   On the whitelist alphabet ParseFloat's syntax is: optional leading '-', digits with at most one '.',
   at least one digit, nothing else (no exponent, no inf/nan/hex/underscore: those need other letters).
-  Range overflow (> ~1.8e308, i.e. ≥ 309 integer digits) is outside the model: inputs are kept < 300 bytes. -/
+  Range overflow (≥ 2^1024 − 2^970) makes ParseFloat fail: `F64.readFloat`. -/
 def cDot : Nat := 46
 
 /-- scanner state: digits seen?, dot seen? — mirrors strconv.readFloat's loop on the whitelisted alphabet -/
